@@ -83,7 +83,7 @@ func init() {
 	Register(&Prop{ID: "C10",
 		Meta: Meta{Level: "exploration",
 			Rule:       "scripted plugin: valid handshake, then a byte script on its real stderr (text lines, [LEVEL] prefixes, panic traces, hclog JSON with key/values, JSON with ill-typed @message/@level/@timestamp, non-object JSON, JSON without level, lines of length bufsize-1/bufsize/bufsize+1/3*bufsize+5, CRLF, empty lines, NUL/high bytes, missing final newline) and on its stdout (0..300KB, lines up to 200KB), written in drawn chunk sizes through pipes of capacity 1B..64KB, PluginLogBufferSize drawn from {16,64,256,4096,default}; every (line class, sub-variant) x buffer size enumerated alone and after a panic line, plus seeded mixes of 1-12 lines. Oracle: the script finishes writing within 60s simulated (never blocked by back-pressure), no host panic, ClientConfig.Stderr received the same lines byte for byte and in order (terminators normalised to LF), and for every line shorter than the buffer the logger received one record whose level, message and key/values match a reference reading written from the property statement",
-			Exhaustive: "every line class and sub-variant x 5 log buffer sizes, alone and inside a panic trace, under a host logger at Trace and (subset) at Debug/Info/Warn/Error; stdout volumes {0, 1 line, 64KB-1, 64KB+1, 200KB line, 300KB of short lines}"},
+			Exhaustive: "every line class and sub-variant x 5 log buffer sizes, alone and inside a panic trace, under a host logger at Trace and (subset, fixed cells only) at Debug/Info/Warn/Error; stdout volumes {0, 1 line, 64KB-1, 64KB+1, 200KB line, 300KB of short lines}"},
 		Plan: func(tier string, seed uint64, stage int, prev []*h.Result) []*k.Spec {
 			if stage > 0 {
 				return nil
@@ -147,9 +147,10 @@ func init() {
 				u := func(tag string, n int) int { return int(k.H(sd, tag, 0) % uint64(n)) }
 				s := &k.Spec{Seed: sd, Params: P("buf", bufs[u("buf", 5)], "random", "1", "stdout", []string{"", "", "1line", "300kshort", "200kline", "64k+1"}[u("so", 6)])}
 				s.Faults = []string{"pipe.chunk,pipe.smallbuf", "pipe.chunk", "pipe.smallbuf", ""}[u("faults", 4)]
-				if u("lvon", 3) == 0 {
-					s.Params["loglevel"] = []string{"debug", "info", "warn", "error"}[u("lv", 4)]
-				}
+				// (the host-logger dimension stays with the fixed cells: in drawn
+				// sequences of up to twelve lines a record that MAY exist - a line whose
+				// level the statement leaves open - cannot be told from the record of a
+				// later line with the same text, and the reference raised false alarms)
 				if u("noise", 3) == 0 {
 					swarm(s, "client.go:Client.logStderr,log_entry.go")
 					if s.DelayClass == "big" {
@@ -410,20 +411,33 @@ func runC10(r *h.Run) {
 				wantLevel = "debug"
 			}
 		}
+		msg := l.Msg
+		if !l.Strict {
+			msg = l.Text // plain text line: the message is the line
+		}
 		if logLevel != "trace" {
 			if wantLevel == "" {
-				continue // level not specified: the logger may or may not let it through
+				// level not specified: the logger may or may not have let it through;
+				// its record, if any, is skipped by the search for the next line that
+				// must have one
+				continue
 			}
 			if rank[wantLevel] < rank[logLevel] {
 				continue // below the host logger's level: no record expected
 			}
 		}
-		msg := l.Msg
-		if !l.Strict {
-			msg = l.Text // plain text line: the message is the line
-		}
 		found := false
-		for ; ri < len(recs); ri++ {
+		if logLevel != "trace" {
+			// a record of an earlier line that need not have one may carry the same
+			// text at another level: prefer the record with the expected level
+			for j := ri; j < len(recs); j++ {
+				if recs[j].Msg == msg && recs[j].Level == wantLevel {
+					ri, found = j, true
+					break
+				}
+			}
+		}
+		for ; !found && ri < len(recs); ri++ {
 			if recs[ri].Msg == msg {
 				found = true
 				break
